@@ -35,7 +35,19 @@ pub enum Ev {
     Save { path: String },
     /// The 1000 ms idle timer fires before the next message.
     Idle,
-    Request { kind: ReqKind, path: String, pos: Pos, new_name: Option<String> },
+    /// The client stops waiting: up to `n` of the following notifications and requests reach
+    /// the server's inbox before the server gets to run (anything else ends the burst early).
+    Burst { n: u8 },
+    Request {
+        kind: ReqKind,
+        path: String,
+        pos: Pos,
+        new_name: Option<String>,
+        /// the client does not wait for the answer: the request and the next notification
+        /// reach the server's inbox together
+        #[serde(default)]
+        pipelined: bool,
+    },
     /// prepareRename → rename → apply the edits to the client's buffers → didChange them back.
     RenameLoop { path: String, pos: Pos, new_name: String },
     /// Remove a workspace folder, or add it back (`b`: the second folder `fb/`).
@@ -52,7 +64,13 @@ pub enum Ev {
     },
     /// A module that is not open vanishes from disk behind the server's back (rm, git
     /// checkout); the server can only notice at its next refresh after a notification.
-    DiskDelete { path: String },
+    /// `how`: 0 the file vanishes; 1 a directory takes its place; 2 its bytes stop being
+    /// UTF-8 — the last two exist for `is_valid` but cannot be read
+    DiskDelete {
+        path: String,
+        #[serde(default)]
+        how: u8,
+    },
     /// ...and comes back with the very same content.
     DiskRestore { path: String },
     Checkpoint,
@@ -114,14 +132,32 @@ impl World {
     pub fn write(&self, path: &str, text: &str) {
         let p = self.root.join(path);
         std::fs::create_dir_all(p.parent().unwrap()).expect("scratch");
+        if p.is_dir() {
+            let _ = std::fs::remove_dir_all(&p);
+        }
         std::fs::write(p, text).expect("scratch");
+    }
+    /// The file stays in place but cannot be read any more (see `Ev::DiskDelete::how`).
+    pub fn make_unreadable(&self, path: &str, how: u8) {
+        let p = self.root.join(path);
+        let _ = std::fs::remove_file(&p);
+        if how == 1 {
+            std::fs::create_dir_all(&p).expect("scratch");
+        } else {
+            std::fs::write(&p, b"let a = \xff\xfe\x80 num;\n").expect("scratch");
+        }
     }
     pub fn folder_b_uri(&self) -> Url {
         let canon = self.root.canonicalize().expect("scratch root");
         Url::from_file_path(canon.join("fb")).expect("abs path")
     }
     pub fn remove(&self, path: &str) {
-        let _ = std::fs::remove_file(self.root.join(path));
+        let p = self.root.join(path);
+        if p.is_dir() {
+            let _ = std::fs::remove_dir_all(&p);
+        } else {
+            let _ = std::fs::remove_file(&p);
+        }
     }
     pub fn folder_uri(&self) -> Url {
         let canon = self.root.canonicalize().expect("scratch root");
@@ -288,6 +324,10 @@ pub struct Peer<'w> {
     pub log: String,
     /// Canonical request answers and diagnostic snapshots, in order (sim-vs-real transcript).
     pub transcript: Vec<String>,
+    /// responses received and not yet claimed, by request id
+    pub answers: BTreeMap<String, Value>,
+    /// in a burst: notifications go to the inbox, the server does not run yet
+    pub hold: bool,
 }
 
 pub fn real_lsp_bin() -> Option<String> {
@@ -322,6 +362,8 @@ impl<'w> Peer<'w> {
             next_id: 1,
             log: String::new(),
             transcript: Vec::new(),
+            answers: BTreeMap::new(),
+            hold: false,
         }
     }
 
@@ -339,8 +381,7 @@ impl<'w> Peer<'w> {
         self.transcript.push(format!("D {:?}", self.diags));
     }
 
-    fn absorb(&mut self, out: Vec<Message>) -> Option<Value> {
-        let mut resp = None;
+    fn absorb(&mut self, out: Vec<Message>) {
         // Within one step the order of published notifications follows HashMap iteration
         // (legitimately): log the batch sorted.
         let mut batch: Vec<String> = Vec::new();
@@ -356,7 +397,7 @@ impl<'w> Peer<'w> {
                 Message::Response(r) => {
                     let v = r.result.clone().unwrap_or(Value::Null);
                     batch.push(format!("<R {} {}\n", r.id, canon_result(self.world, &v)));
-                    resp = Some(if r.error.is_some() { json!({"error": r.error.map(|e| e.message)}) } else { v });
+                    self.answers.insert(r.id.to_string(), if r.error.is_some() { json!({"error": r.error.map(|e| e.message)}) } else { v });
                 }
                 Message::Request(r) => {
                     batch.push(format!("<Q {}\n", r.method));
@@ -367,7 +408,6 @@ impl<'w> Peer<'w> {
         for l in batch {
             self.log.push_str(&l);
         }
-        resp
     }
 
     pub fn notify(&mut self, method: &str, params: Value) {
@@ -377,11 +417,26 @@ impl<'w> Peer<'w> {
             self.sync_real_death();
             return;
         }
-        let out = self.server.step(Step::Deliver(Message::Notification(Notification {
+        let m = Message::Notification(Notification {
             method: method.to_string(),
             params,
-        })));
+        });
+        if self.hold {
+            self.server.enqueue(m);
+            return;
+        }
+        let out = self.server.step(Step::Deliver(m));
         self.absorb(out);
+    }
+
+    /// End of a burst: the server works off its inbox.
+    pub fn release(&mut self) {
+        self.hold = false;
+        if self.real.is_none() {
+            self.log.push_str(">F\n");
+            let out = self.server.step(Step::Flush);
+            self.absorb(out);
+        }
     }
 
     pub fn idle(&mut self) {
@@ -428,9 +483,49 @@ impl<'w> Peer<'w> {
                 params,
             })))
         };
-        let a = self.absorb(out);
+        self.absorb(out);
+        let a = self.answers.remove(&id.to_string());
         self.transcript.push(format!("A {}", a.as_ref().map(|v| canon_result(self.world, v).to_string()).unwrap_or_else(|| "-".into())));
         self.snapshot();
+        a
+    }
+
+    /// Sends a request without waiting for (or, in process, even allowing) its answer.
+    pub fn enqueue_request(&mut self, kind: ReqKind, path: &str, pos: Pos, new_name: Option<&str>) -> i32 {
+        let (method, params) = self.req_parts(kind, path, pos, new_name);
+        let id = self.next_id;
+        self.next_id += 1;
+        self.log.push_str(&format!(">Q(pipelined) {} {}\n", method, canon_result(self.world, &params)));
+        if let Some(r) = self.real.as_mut() {
+            r.send(&json!({"jsonrpc": "2.0", "id": id, "method": method, "params": params}));
+            self.sync_real_death();
+        } else {
+            self.server.enqueue(Message::Request(Request {
+                id: RequestId::from(id),
+                method: method.to_string(),
+                params,
+            }));
+        }
+        id
+    }
+
+    /// The answer to a request sent with `enqueue_request`, once whatever followed it has
+    /// been sent as well.
+    pub fn settle(&mut self, id: i32) -> Option<Value> {
+        if !self.answers.contains_key(&id.to_string()) {
+            let out: Vec<Message> = if let Some(r) = self.real.as_mut() {
+                let msgs = r.await_response(id);
+                self.sync_real_death();
+                msgs.into_iter().filter_map(to_message).collect()
+            } else {
+                self.server.step(Step::Flush)
+            };
+            self.absorb(out);
+        }
+        let a = self.answers.remove(&id.to_string());
+        // (the diagnostics are recorded once all requests of the burst have been answered: the
+        // real process has published for the later ones by then, as the simulated one has)
+        self.transcript.push(format!("A {}", a.as_ref().map(|v| canon_result(self.world, v).to_string()).unwrap_or_else(|| "-".into())));
         a
     }
 
@@ -442,23 +537,28 @@ impl<'w> Peer<'w> {
         );
     }
 
-    pub fn send_request(&mut self, kind: ReqKind, path: &str, pos: Pos, new_name: Option<&str>) -> Option<Value> {
+    fn req_parts(&self, kind: ReqKind, path: &str, pos: Pos, new_name: Option<&str>) -> (&'static str, Value) {
         let uri = self.world.uri(path);
         let tdp = json!({"textDocument": {"uri": uri}, "position": {"line": pos.line, "character": pos.character}});
         match kind {
-            ReqKind::Definition => self.request("textDocument/definition", tdp),
+            ReqKind::Definition => ("textDocument/definition", tdp),
             ReqKind::References => {
                 let mut p = tdp;
                 p["context"] = json!({"includeDeclaration": false});
-                self.request("textDocument/references", p)
+                ("textDocument/references", p)
             }
-            ReqKind::PrepareRename => self.request("textDocument/prepareRename", tdp),
+            ReqKind::PrepareRename => ("textDocument/prepareRename", tdp),
             ReqKind::Rename => {
                 let mut p = tdp;
                 p["newName"] = json!(new_name.unwrap_or("renamed_x"));
-                self.request("textDocument/rename", p)
+                ("textDocument/rename", p)
             }
         }
+    }
+
+    pub fn send_request(&mut self, kind: ReqKind, path: &str, pos: Pos, new_name: Option<&str>) -> Option<Value> {
+        let (method, params) = self.req_parts(kind, path, pos, new_name);
+        self.request(method, params)
     }
 }
 
@@ -493,6 +593,15 @@ pub struct Exec<'w> {
     /// the disk changed behind the server's back and no notification has reached it since:
     /// its view may legitimately lag, so nothing is compared until one has
     pub external_pending: bool,
+    /// modules that exist on disk but cannot be read at the moment (a transient read fault):
+    /// a server that read one before still has its text, a fresh one cannot get it, so the
+    /// two are only compared again once the module is readable and a notification went by
+    pub unreadable: BTreeSet<String>,
+    /// a request that is in the server's inbox but has not been answered: (id, what was
+    /// asked, the answer of a fresh server handed the texts of that moment, event index)
+    pub pending_reqs: Vec<(i32, ReqKind, String, Pos, Option<Value>, usize)>,
+    /// messages that may still join the current burst
+    pub burst_left: u32,
     pub version_base: i32,
 }
 
@@ -517,6 +626,9 @@ impl<'w> Exec<'w> {
         Exec {
             world,
             external_pending: false,
+            unreadable: BTreeSet::new(),
+            pending_reqs: Vec::new(),
+            burst_left: 0,
             version_base: scn.version_base,
             peer: Peer::new2(world, true, scn.folder_b),
             client,
@@ -552,16 +664,20 @@ impl<'w> Exec<'w> {
         let s = format!(
             "{:?}|{}|{:?}|{}",
             self.client.open.keys().collect::<Vec<_>>(),
-            self.peer.server.state.is_stale,
+            self.peer.server.is_stale(),
             self.peer.diags.keys().collect::<Vec<_>>(),
-            self.peer.server.state.folders.values().filter(|f| f.modules().is_some()).count()
+            self.peer.server.with_state(|s| s.folders.values().filter(|f| f.modules().is_some()).count()).unwrap_or(0)
         );
         digest64(s.as_bytes())
     }
 
     #[cfg(oal_verif)]
     fn drift(&self) -> Option<String> {
-        let docs = self.peer.server.state.workspace.verif_docs();
+        self.peer.server.with_state(|s| self.drift_in(s.workspace.verif_docs())).flatten()
+    }
+
+    #[cfg(oal_verif)]
+    fn drift_in(&self, docs: &std::collections::HashMap<oal_model::locator::Locator, String>) -> Option<String> {
         for (path, (text, _)) in self.client.open.iter() {
             let uri = self.world.uri(path);
             let loc = oal_model::locator::Locator::from(uri.clone());
@@ -607,7 +723,7 @@ impl<'w> Exec<'w> {
             return;
         }
         match ev {
-            Ev::Request { kind, path, pos, new_name } => {
+            Ev::Request { kind, path, pos, new_name, .. } => {
                 fresh.send_request(*kind, path, *pos, new_name.as_deref());
                 if !fresh.server.alive() {
                     // A handler killed the server: C17/C18 liveness (and C15's "stays alive").
@@ -715,9 +831,17 @@ impl<'w> Exec<'w> {
             return;
         }
         let pre_client = self.client.clone();
+        if (self.burst_left > 0 || !self.pending_reqs.is_empty()) && !matches!(ev, Ev::Open { .. } | Ev::Change { .. } | Ev::Close { .. } | Ev::Request { .. }) {
+            // only plain notifications and requests travel in a burst
+            self.release(at, ev, &pre_client);
+            if self.violation.is_some() || self.discarded.is_some() {
+                return;
+            }
+        }
         self.peer.barrier = barrier_doc(&self.client);
-        let stale_before = self.peer.server.state.is_stale;
+        let stale_before = self.peer.server.is_stale();
         let mut sent = true;
+        let mut enqueued = false;
         match ev {
             Ev::Open { path, text } => {
                 if self.client.open.contains_key(path) || !legal_path(path) {
@@ -807,6 +931,14 @@ impl<'w> Exec<'w> {
                 }
                 sent = false;
             }
+            Ev::Burst { n } => {
+                sent = false;
+                if self.compare_fresh_on_requests && !self.external_pending {
+                    self.burst_left = (*n).clamp(2, 8) as u32;
+                    self.peer.hold = true;
+                    self.stats.probe("burst_started");
+                }
+            }
             Ev::Idle => {
                 if !stale_before {
                     self.stats.probe("idle_with_nothing_stale");
@@ -854,15 +986,21 @@ impl<'w> Exec<'w> {
                     self.peer.notify("workspace/didChangeWorkspaceFolders", json!({"event": {"added": [f.clone()], "removed": [f]}}));
                 }
             }
-            Ev::DiskDelete { path } => {
+            Ev::DiskDelete { path, how } => {
                 sent = false;
                 let is_main = path == "main.oal" || path == "fb/main.oal";
                 if !is_main && !self.client.open.contains_key(path) {
                     if let Some(t) = self.client.disk.remove(path) {
                         self.client.deleted.insert(path.clone(), t);
-                        self.world.remove(path);
+                        if *how == 0 {
+                            self.world.remove(path);
+                            self.stats.probe("module_deleted_behind_the_server");
+                        } else {
+                            self.world.make_unreadable(path, *how);
+                            self.unreadable.insert(path.clone());
+                            self.stats.probe(if *how == 1 { "module_replaced_by_directory_behind_the_server" } else { "module_not_utf8_behind_the_server" });
+                        }
                         self.external_pending = true;
-                        self.stats.probe("module_deleted_behind_the_server");
                     }
                 }
             }
@@ -872,15 +1010,28 @@ impl<'w> Exec<'w> {
                     if let Some(t) = self.client.deleted.remove(path) {
                         self.world.write(path, &t);
                         self.client.disk.insert(path.clone(), t);
+                        if self.unreadable.remove(path) {
+                            self.stats.probe("module_readable_again_behind_the_server");
+                        }
                         self.external_pending = true;
                         self.stats.probe("module_restored_behind_the_server");
                     }
                 }
             }
-            Ev::Request { kind, path, pos, new_name } => {
+            Ev::Request { kind, path, pos, new_name, pipelined } => {
                 if self.client.effective(path).map(|t| !position::representable(t, *pos)).unwrap_or(true) {
                     sent = false;
+                } else if (*pipelined || self.burst_left > 0) && self.compare_fresh_on_requests && !self.external_pending && self.pipeline_request(*kind, path, *pos, new_name.as_deref(), at) {
+                    // in the inbox; answered together with what follows
+                    sent = false;
+                    enqueued = true;
                 } else {
+                    if self.burst_left > 0 || !self.pending_reqs.is_empty() {
+                        self.release(at, ev, &pre_client);
+                        if self.violation.is_some() || self.discarded.is_some() {
+                            return;
+                        }
+                    }
                     if stale_before {
                         self.stats.probe("request_while_stale");
                     }
@@ -927,17 +1078,35 @@ impl<'w> Exec<'w> {
                 }
             }
         }
-        if sent && matches!(ev, Ev::Open { .. } | Ev::Change { .. } | Ev::Close { .. } | Ev::Folder { .. } | Ev::FolderReadd { .. }) {
+        if sent && self.unreadable.is_empty() && matches!(ev, Ev::Open { .. } | Ev::Change { .. } | Ev::Close { .. } | Ev::Folder { .. } | Ev::FolderReadd { .. }) {
             self.external_pending = false;
         }
         if sent {
             self.stats.sim_time_ms += 7;
-            self.stats.interleaving.push_str(&format!("{}{}{};", ev_name(ev), stale_before as u8, self.peer.server.state.is_stale as u8));
+            self.stats.interleaving.push_str(&format!("{}{}{};", ev_name(ev), stale_before as u8, self.peer.server.is_stale() as u8));
             let st = self.abstract_state();
             self.stats.states.push(st);
         }
         if self.violation.is_some() || self.discarded.is_some() {
             return;
+        }
+        if self.burst_left > 0 {
+            // the server has not run: nothing to look at yet
+            if sent || enqueued {
+                self.burst_left -= 1;
+                if self.burst_left == 0 {
+                    self.stats.probe("burst_ran_to_its_full_length");
+                    self.release(at, ev, &pre_client);
+                }
+            }
+            return;
+        }
+        if sent && !self.pending_reqs.is_empty() && self.peer.server.alive() {
+            self.stats.probe("request_answered_in_one_burst_with_the_next_notification");
+            self.settle_pending();
+            if self.violation.is_some() || self.discarded.is_some() {
+                return;
+            }
         }
         if !self.peer.server.alive() {
             self.attribute_death(at, ev, &pre_client);
@@ -947,6 +1116,87 @@ impl<'w> Exec<'w> {
             if let Some(d) = self.drift() {
                 self.fail(at, "document-drift", "document-drift".into(), d);
             }
+        }
+    }
+
+    /// Puts a request into the server's inbox without waiting for its answer. What the answer
+    /// must be is settled now: that of a fresh server handed the texts of this moment. False
+    /// if the request should take the ordinary path instead.
+    fn pipeline_request(&mut self, kind: ReqKind, path: &str, pos: Pos, new_name: Option<&str>, at: usize) -> bool {
+        let mut fresh = fresh_peer(self.world, &self.client);
+        self.stats.evals += 1;
+        if !fresh.server.alive() {
+            return false; // the ordinary path attributes a refresh that dies everywhere
+        }
+        let expected = fresh.send_request(kind, path, pos, new_name);
+        if !fresh.server.alive() {
+            return false; // a handler that dies: the ordinary path reports it
+        }
+        let id = self.peer.enqueue_request(kind, path, pos, new_name);
+        self.pending_reqs.push((id, kind, path.to_string(), pos, expected, at));
+        self.stats.probe("request_pipelined");
+        if self.pending_reqs.len() > 1 {
+            self.stats.probe("several_requests_in_one_burst");
+        }
+        true
+    }
+
+    /// End of a burst: the server works off its inbox; every request in it must have been
+    /// answered as of its place in the sequence, and the documents must have followed.
+    pub fn release(&mut self, at: usize, ev: &Ev, pre_client: &ClientModel) {
+        let was_burst = self.burst_left > 0 || self.peer.hold;
+        self.burst_left = 0;
+        self.peer.release();
+        self.settle_pending();
+        if self.violation.is_some() || self.discarded.is_some() {
+            return;
+        }
+        if !self.peer.server.alive() {
+            self.attribute_death(at, ev, pre_client);
+            return;
+        }
+        if was_burst && self.check_drift && self.peer.real.is_none() {
+            if let Some(d) = self.drift() {
+                self.fail(at, "document-drift", "document-drift".into(), d);
+            }
+        }
+    }
+
+    /// Collects the answers to the pipelined requests and compares them.
+    pub fn settle_pending(&mut self) {
+        if self.pending_reqs.is_empty() {
+            return;
+        }
+        for p in std::mem::take(&mut self.pending_reqs) {
+            self.settle_one(p);
+            if self.violation.is_some() || self.discarded.is_some() {
+                return;
+            }
+        }
+        self.peer.snapshot();
+    }
+
+    fn settle_one(&mut self, (id, kind, path, pos, expected, at): (i32, ReqKind, String, Pos, Option<Value>, usize)) {
+        if !self.peer.server.alive() {
+            return;
+        }
+        let a = self.peer.settle(id);
+        if !self.peer.server.alive() {
+            // the request was fine on a fresh server with the same texts
+            let death = self.peer.server.death.clone().unwrap_or_default();
+            self.fail(at, "history-server-died", death_signature(&death, Some(kind)), format!("pipelined {kind:?} at {path}:{pos:?}: {death} (a fresh server given the same texts answers)"));
+            return;
+        }
+        self.stats.count("requests_compared", 1);
+        self.stats.oracle_checks += 1;
+        let (ca, cb) = (a.map(|v| canon_result(self.world, &v)), expected.map(|v| canon_result(self.world, &v)));
+        if ca != cb {
+            self.fail(
+                at,
+                "history-vs-fresh-request",
+                format!("pipelined-request-answer-differs kind={kind:?}"),
+                format!("{kind:?} at {path}:{pos:?}, sent without waiting and followed by a notification: history {ca:?}; a fresh server handed the texts of that moment {cb:?}"),
+            );
         }
     }
 
@@ -1033,6 +1283,7 @@ pub fn ev_name(ev: &Ev) -> &'static str {
         Ev::Close { .. } => "X",
         Ev::Save { .. } => "S",
         Ev::Idle => "T",
+        Ev::Burst { .. } => "B",
         Ev::Request { kind, .. } => match kind {
             ReqKind::Definition => "Qd",
             ReqKind::References => "Qr",
@@ -1086,6 +1337,11 @@ pub fn run_scenario(scn: &Scenario, hook: Option<fn(&mut Exec, usize, &Ev)>) -> 
             if ex.violation.is_some() || ex.discarded.is_some() {
                 break;
             }
+        }
+        if ex.violation.is_none() && ex.discarded.is_none() {
+            let n = scn2.events.len();
+            let pre = ex.client.clone();
+            ex.release(n, &Ev::Checkpoint, &pre);
         }
         let digest = digest64(ex.peer.log.as_bytes());
         if let Ok(p) = std::env::var("OALSIM_DUMP_LOG") {
@@ -1168,11 +1424,15 @@ pub fn probe(scn: &Scenario, k: usize) -> Option<String> {
                         client.folder_present = *add
                     }
                 }
-                Ev::DiskDelete { path } => {
+                Ev::DiskDelete { path, how } => {
                     if path != "main.oal" && path != "fb/main.oal" && !client.open.contains_key(path) {
                         if let Some(t) = client.disk.remove(path) {
                             client.deleted.insert(path.clone(), t);
-                            world.remove(path);
+                            if *how == 0 {
+                                world.remove(path);
+                            } else {
+                                world.make_unreadable(path, *how);
+                            }
                         }
                     }
                 }
